@@ -93,14 +93,16 @@ Section Order.
   Definition sort_legacy (l : list rid) : list rid := isort legacy_less l.
 
   (* Is [legacy_less] a strict total order on these ids?  (decidable check used by the correspondence:
-     outside it sort.Sort promises nothing about the order) *)
-  Definition total_on_b (l : list rid) : bool :=
-    forallb (fun a =>
-      negb (legacy_less a a) &&
-      forallb (fun b =>
-        (rid_eqb a b || legacy_less a b || legacy_less b a) &&
-        negb (legacy_less a b && legacy_less b a) &&
-        forallb (fun c => negb (legacy_less a b && legacy_less b c) || legacy_less a c) l) l) l.
+     outside it sort.Sort promises nothing about the order.)  Quadratic: sort, then every ordered pair of
+     the sorted list must be strictly increasing; LegacySortProofs.total_on_b_sound shows that this
+     implies [total_on]. *)
+  Fixpoint pairs_increasing (l : list rid) : bool :=
+    match l with
+    | [] => true
+    | x :: t => negb (legacy_less x x) &&
+                forallb (fun y => legacy_less x y && negb (legacy_less y x)) t && pairs_increasing t
+    end.
+  Definition total_on_b (l : list rid) : bool := pairs_increasing (sort_legacy l).
 End Order.
 
 (* ---------- identity of resources in a ResMap ---------- *)
